@@ -31,7 +31,7 @@ def p1_inventory(ctx, cfgs):
     r = Rule("C09.P1", "panic-capable site inventory vs confirmed table",
              "a panic-capable construct reachable from the load entry points that is not known to be guarded can be "
              "triggered by file content; the crate's own discipline is to return Error and use UnwrapAt only for 'cannot happen'",
-             floor=90)
+             floor=80)
     tab = table("c09_sites.toml")["site"]
     allowed = {}
     for e in tab:
@@ -78,10 +78,194 @@ def p1_inventory(ctx, cfgs):
     return r
 
 
+def r1_unrenderable(ctx, prog):
+    import mustlib as M
+    from astlib import show
+    from rules.common import flatp, has
+    r = Rule("C09.R1", "values the generators cannot render never reach a rendered position",
+             "flatten()/EitherOfWrapper::new() end in unreachable!() for null values and empty branch lists; the parser must "
+             "reject (or reroute) every input that would put one there", floor=4)
+    b = prog.body("<leptos_i18n_parser::parse_locales::parsed_value::ParsedValueSeed<'_> as serde::de::Visitor<'de>>::visit_unit")
+    if b is None:
+        r.missing("ParsedValueSeed::visit_unit")
+    else:
+        dflt = M.agg_blocks(b, "parsed_value::ParsedValue", "Default")
+        sws = []
+        for i, sw in b.terms("SwitchInt"):
+            p = op_place(sw["discr"])
+            if p is None:
+                continue
+            for (di, dj, ds) in b.defs().get(p["l"], []):
+                if dj != "term" and ds["rv"]["k"] == "Use":
+                    src = op_place(ds["rv"]["ops"][0])
+                    if src and src["l"] == 1 and any(e.startswith(".") and M.field_name(prog, "leptos_i18n_parser::parse_locales::parsed_value::ParsedValueSeed", int(e[1:])) == "in_range" for e in src["p"]):
+                        sws.append((i, sw))
+        ok = False
+        for (i, sw) in sws:
+            zero = [t for v, t in sw["targets"] if v == "0"]
+            if zero and dflt and all(b.dominates(zero[0], d) for d in dflt) and not b.paths_avoiding(sw["otherwise"], dflt, [zero[0]]):
+                ok = True
+        if ok:
+            r.inst("ParsedValueSeed::visit_unit", "Ok(Default) only on the `!self.in_range` side: a range branch cannot be null")
+        else:
+            r.viol("R1:visit_unit#in_range", "a null inside a range is accepted as ParsedValue::Default: code generation would reach unreachable!(\"defaulted value should never have been rendered\")", file=b.file, line=b.line)
+    fn = ctx.ast.fn("leptos_i18n_parser/src/parse_locales/locale.rs", "is_possible_plural")
+    t = flatp(show(fn.body)) if fn else ""
+    m = re.search(r"ifmatches!value,([^{]*)\{returnNone", t)
+    kinds = set(re.findall(r"ParsedValue::([A-Z][a-z]+)", m.group(1))) if m else set()
+    if "Default" in kinds:
+        r.inst("is_possible_plural", "a null value is never a plural form")
+    else:
+        r.viol("R1:is_possible_plural#null-form", "a null value can be merged as a plural form: code generation would reach unreachable!()", file="leptos_i18n_parser/src/parse_locales/locale.rs")
+    fn = ctx.ast.fn("leptos_i18n_parser/src/parse_locales/parsed_value.rs", "reduce_into", impl_self="ParsedValue")
+    t = flatp(show(fn.body)) if fn else ""
+    if has(t, "ParsedValue::Default=>{}") and has(t, "ParsedValue::Subkeys_=>{}"):
+        r.inst("reduce_into", "nulls and subkeys inside a bloc are dropped")
+    else:
+        r.viol("R1:reduce_into#drops", "nulls / subkeys are no longer dropped from blocs", file="leptos_i18n_parser/src/parse_locales/parsed_value.rs")
+    b2 = prog.body("ranges::Ranges::from_serde_seq")
+    if b2 is not None and M.call_blocks(b2, r"ranges::Ranges::is_empty$") and M.must_pass(b2, M.call_blocks(b2, r"ranges::Ranges::is_empty$"), M.ok_return_blocks(b2)):
+        r.inst("Ranges::from_serde_seq", "a range without branches is rejected (EitherOfWrapper::new(0) unreachable)")
+    else:
+        r.viol("R1:from_serde_seq#empty", "a typed range without branches is accepted: code generation would reach unreachable!(\"0 locales ?\")", file="leptos_i18n_parser/src/parse_locales/ranges.rs")
+    # build helper: locale names validated before use
+    b3 = prog.body("leptos_i18n_build::TranslationsInfos::parse_inner")
+    if b3 is None:
+        r.missing("TranslationsInfos::parse_inner")
+    else:
+        oks = M.ok_return_blocks(b3)
+        parses = M.call_blocks(b3, r"core::str::<impl str>::parse$")
+        errs = M.agg_blocks(b3, "error::Error", "InvalidLocale")
+        lp = M.loop_of(b3, parses[0]) if parses else None
+        if oks and parses and errs and lp and b3.dominates(lp[0], oks[0]) and not b3.paths_avoiding(errs[0], oks, []):
+            r.inst("TranslationsInfos::parse_inner (C09.B1)", "every locale name is parsed as a LanguageIdentifier before Ok; failure -> InvalidLocale")
+        else:
+            r.viol("R1:parse_inner#validate-locales", "locale names are not validated as language identifiers before TranslationsInfos is returned: get_locales_langids would panic", file=b3.file, line=b3.line)
+    return r
+
+
+def p3_floats(ctx, prog):
+    import mustlib as M
+    r = Rule("C09.P3", "only finite floats can reach token generation",
+             "proc_macro2 asserts `f.is_finite()` when a float becomes a literal token: NaN / infinities accepted by the parser make "
+             "load_locales! panic", floor=5)
+    allowed_unchecked = {
+        "<leptos_i18n_parser::parse_locales::parsed_value::LiteralVisitor as serde::de::Visitor<'_>>::visit_f64":
+            "LiteralVisitor only deserialises foreign-key arguments through serde_json, which cannot produce non-finite numbers",
+    }
+    n = 0
+    for name, b in sorted(prog.bodies.items()):
+        if b.crate != "leptos_i18n_parser" or "Clone>::clone" in name or "PartialEq>::" in name or "Debug>::fmt" in name:
+            continue
+        for i, j, s in b.aggregates("parsed_value::Literal", "Float"):
+            n += 1
+            if name in allowed_unchecked:
+                r.inst(name + "#Literal::Float", "allow-listed: " + allowed_unchecked[name])
+                continue
+            fin = M.call_blocks(b, r"^f64::<impl f64>::is_finite$|::is_finite$")
+            ok = False
+            for c in fin:
+                rsw = M.result_switch(b, c)
+                if rsw and b.dominates(rsw[1], i) and not b.paths_avoiding(rsw[2], [i], [rsw[1]]):
+                    ok = True
+            if ok:
+                r.inst(name + "#Literal::Float", "constructed only on the true side of is_finite()")
+            else:
+                r.viol("P3:%s#Literal::Float" % name, "a float literal is constructed without a finiteness check (YAML `.inf` / `.nan` would reach the token generator)", file=b.file, line=s["line"])
+    fam = prog.bodies_matching(r"ranges::Range::<T>::new(::\{closure#\d+\})*$")
+    calls = [t for bb in fam for i, t in bb.calls() if (op_const(t["func"]) or {}).get("fn", "").endswith("RangeNumber::is_finite")]
+    if calls:
+        r.inst("Range::new parse", "parsed bounds are filtered with RangeNumber::is_finite")
+    else:
+        r.viol("P3:Range::new#is_finite", "range bounds parsed from text (`\"inf\"`, `\"NaN\"`, `\"1e999\"`) are not checked for finiteness", file="leptos_i18n_parser/src/parse_locales/ranges.rs")
+    b = prog.body("<leptos_i18n_parser::parse_locales::ranges::RangeSeed<T> as serde::de::Visitor<'de>>::visit_f64")
+    if b is None:
+        r.missing("RangeSeed::visit_f64")
+    else:
+        okc = [t for bb in prog.family(b) for i, t in bb.calls() if (op_const(t["func"]) or {}).get("fn", "").endswith("RangeNumber::is_finite")]
+        src = M.call_blocks(b, r"f64::<impl f64>::is_finite$|^core::f64::<impl f64>::is_finite$|::is_finite$")
+        if okc and src:
+            r.inst("RangeSeed::visit_f64", "the f64 and its conversion to the range type are both checked with is_finite")
+        else:
+            r.viol("P3:RangeSeed::visit_f64", "numeric range bounds are not checked for finiteness (before and after conversion to f32)", file=b.file, line=b.line)
+    for ty in ("f32", "f64"):
+        cands = prog.bodies_matching(r"RangeNumber for %s>::is_finite$" % ty)
+        bb = cands[0] if cands else None
+        if bb is None:
+            r.missing("<%s as RangeNumber>::is_finite" % ty)
+        elif M.call_blocks(bb, r"::is_finite$"):
+            r.inst("<%s as RangeNumber>::is_finite" % ty, "delegates to %s::is_finite" % ty)
+        else:
+            r.viol("P3:<%s as RangeNumber>::is_finite" % ty, "does not test finiteness", file=bb.file, line=bb.line)
+    if n < 2:
+        r.viol("P3:sites", "only %d Literal::Float construction sites found" % n)
+    return r
+
+
+def t_termination(ctx, cfgs):
+    import mustlib as M
+    from rules.common import table
+    r = Rule("C09.T", "every loop and every recursive cycle of the loading code has a recorded progress argument",
+             "`never ... loops forever or overflows the stack`: a new loop without a consumable iterator, or a new recursive cycle, "
+             "needs its own termination argument", floor=150)
+    tab = table("c09_recursion.toml")["scc"]
+    known = {tuple(sorted(e["members"])): e for e in tab}
+    loop_table = {
+        "leptos_i18n_parser::parse_locales::locale::DefaultedLocales::default_of_inner":
+            "while let Some(next) = mapping.get(cur): `cur` is inserted in `visited` every iteration and the loop returns when `next` was visited, so it runs at most |mapping|+1 times (shape checked by C03.R3)",
+        "leptos_i18n_parser::parse_locales::parsed_value::ParsedValue::find_valid_component":
+            "skip_sum grows by at least 2 bytes per non-exiting iteration and the search returns None when no `<..>` is left (delta proved positive by the symbolic offset analysis, C09.P2)",
+    }
+    nxt = re.compile(r"::next$|::next_key$|::next_key_seed$|::next_element_seed$|::next_element$|::next_value|::next_entry")
+    for cfg in cfgs:
+        prog = ctx.mir(cfg)
+        lb = loading_bodies(prog)
+        names = {b.name for b in lb}
+        for comp in prog.sccs(names):
+            roots = tuple(sorted({root_fn(c) for c in comp}))
+            e = known.get(roots)
+            if e is None:
+                # tolerate a listed cycle that merely gained/lost closures or helper members: same root set required
+                r.viol("T:scc:" + "+".join(x.split("::")[-1] for x in roots)[:120], "recursive cycle without recorded termination argument: %s [cfg %s]" % (", ".join(roots), cfg), file=prog.bodies[comp[0]].file, line=prog.bodies[comp[0]].line)
+            elif e["status"] == "finding":
+                r.viol("T:scc-unbounded:" + roots[0].split("::")[-1], "recursion depth is not bounded by the code: %s" % e["why"], file=prog.bodies[comp[0]].file)
+                r.inst("cycle " + " / ".join(x.split("::")[-1] for x in roots)[:100], e["why"][:160], cfg=cfg)
+            else:
+                r.inst("cycle " + " / ".join(x.split("::")[-1] for x in roots)[:100], e["why"][:160], cfg=cfg)
+        for b in lb:
+            for (hdr, nodes, srcs) in M.loops(b):
+                nexts = [i for i in nodes if b.blocks[i]["term"]["k"] == "Call" and nxt.search(callee_name(b.blocks[i]["term"]) or "")]
+                site = "%s#loop@L%s" % (b.name, b.blocks[hdr]["term"].get("line"))
+                if nexts:
+                    # the iterator's None side must leave the loop
+                    exits = False
+                    for nb in nexts:
+                        dest = b.blocks[nb]["term"]["dest"]["l"]
+                        for (si, sw, pl) in M.discr_switches(b, lambda pl, dest=dest: pl["l"] == dest):
+                            tg = [t for v, t in sw["targets"]] + [sw["otherwise"]]
+                            if any(t not in nodes for t in tg):
+                                exits = True
+                        # `?`-wrapped iterators (serde): the Option is unwrapped from a Result first
+                        if not exits:
+                            for i in nodes:
+                                if b.blocks[i]["term"]["k"] == "SwitchInt" and any(t not in nodes for t in b.succ(i)):
+                                    exits = True
+                    if exits:
+                        r.inst(site, "consumes an iterator (%s) and leaves when it is exhausted" % (callee_name(b.blocks[nexts[0]]["term"]) or "")[-60:], cfg=cfg)
+                    else:
+                        r.viol("T:loop:%s" % root_fn(b.name), "loop advances an iterator but never leaves on exhaustion", file=b.file, line=b.blocks[hdr]["term"].get("line"))
+                elif root_fn(b.name) in loop_table:
+                    r.inst(site, loop_table[root_fn(b.name)][:200], cfg=cfg)
+                else:
+                    r.viol("T:loop:%s" % root_fn(b.name), "loop without a consumable iterator and without recorded progress argument (line %s) [cfg %s]" % (b.blocks[hdr]["term"].get("line"), cfg), file=b.file, line=b.blocks[hdr]["term"].get("line"))
+    return r
+
+
 def run(ctx):
     cfgs = ["main"] if ctx.tier == "quick" else ["main", "yaml", "json5", "bare"]
     from rules import offsets
-    rules = [p1_inventory(ctx, cfgs), offsets.rule_boundaries(ctx)]
+    prog = ctx.mir("main")
+    rules = [p1_inventory(ctx, cfgs), offsets.rule_boundaries(ctx), p3_floats(ctx, prog), r1_unrenderable(ctx, prog), t_termination(ctx, cfgs)]
     return rules
 
 MANIFEST_ENTRY = {
